@@ -219,7 +219,8 @@ class DepartureRun(PubSubRun):
         if second is None:
             second = ch.weighted("dep.second", [(3, "none"), (2, "fin"), (2, "wfault"), (1, "rst"), (1, "disconnect")])
         self.res.enumerated.setdefault("stage_way", set()).add(f"{stage}/{way}/{second}")
-        vname = ch.weighted("dep.vname", [(6, b"victim"), (1, b"caf\xc3\xa9"), (1, b"\xff\xfe"), (1, b"v[/]\\")])
+        vname = ch.weighted("dep.vname", [(6, b"victim"), (1, b"caf\xc3\xa9"), (1, b"\xff\xfe"), (1, b"v[/]\\"),
+                                          (2, b"abcdefghijklmnopqrstuvwxyz012345"), (1, b"a name with blanks ")])
         v = self.make_victim(stage, 30, vname)
         v2 = None
         if second != "none":
